@@ -638,6 +638,8 @@ fn main() {
                 muts.push(("tsig_class", flip(&wire, tsig_at + owner + 2 + r.below(2) as usize, r.below(8) as u8), Some("reject")));
                 muts.push(("tsig_ttl", flip(&wire, tsig_at + owner + 4 + r.below(4) as usize, r.below(8) as u8), Some("reject")));
             }
+            // a forwarder picked a new ID (RFC 8945 5.1): legal, must verify, and the original ID must be put back
+            { let mut v = wire.clone(); let nid = id ^ (1 + r.below(0xfffe) as u16); v[0..2].copy_from_slice(&nid.to_be_bytes()); muts.push(("forwarded_id", v, Some("accept"))); }
             // framing: the RDLENGTH of an additional A record in front of the TSIG grows by two
             if req.len() > 12 + 15 && req[10] == 0 && req[11] == 1 && req[req.len() - 6..req.len() - 4] == [0, 4] && req[req.len() - 14..req.len() - 10] == [0, 1, 0, 1] {
                 muts.push(("rdlength_plus_2", flip(&wire, req.len() - 5, 1), None));
@@ -663,6 +665,13 @@ fn main() {
                 let in_class_ttl = w.len() == wire.len() && diffs.len() == 1 && diffs[0] >= tsig_at + owner + 2 && diffs[0] < tsig_at + owner + 8;
                 if void { x.out.count("void_mutation"); continue; }
                 if matches!(res, Srv::Panic) { x.out.check_c(false, "panic_on_mutated_message", &case, kind); continue; }
+                if kind == "forwarded_id" {
+                    match &res {
+                        Srv::Ok(m) => x.out.check_c(m.len() >= req.len() && m[..req.len()] == req[..], "forwarded_id_not_restored", &case, &format!("after verification {} want prefix {}", hex(m), hex(&req))),
+                        o => x.out.check_c(false, "forwarded_request_rejected", &case, &o.obs()),
+                    }
+                    continue;
+                }
                 if in_class_ttl {
                     x.out.check_c(!accepted, "tsig_class_ttl_unchecked", &case, &format!("{}: TSIG RR with CLASS/TTL octet {} changed verifies", kind, diffs[0] - tsig_at - owner));
                     continue;
@@ -795,6 +804,7 @@ fn main() {
             muts.push(("tsig_not_last", add_rr(&awire, b"\x00\x00\x01\x00\x01\x00\x00\x00\x00\x00\x04\x01\x02\x03\x04"), t2, Some("FormErr")));
             muts.push(("two_tsigs", add_rr(&awire, &awire[tsig_at..].to_vec()), t2, Some("FormErr")));
             muts.push(("missing", ans.clone(), t2, Some("ServerUnsigned")));
+            { let mut v = awire.clone(); let nid = id ^ (1 + r.below(0xfffe) as u16); v[0..2].copy_from_slice(&nid.to_be_bytes()); muts.push(("forwarded_id", v, t2, Some("accept"))); }
             muts.push(("tsig_class", flip(&awire, tsig_at + owner + 2 + r.below(2) as usize, r.below(8) as u8), t2, Some("reject")));
             { // the correct MAC with octets appended; a MAC below the RFC floor
                 let mut d = with_len(&reqmac); d.extend_from_slice(&ans); d.extend_from_slice(&rfc_variables(&ks, t2, fudge2, 0, &[]));
@@ -826,6 +836,11 @@ fn main() {
                 };
                 if void || (w == awire && at == t2) { x.out.count("void_mutation"); continue; }
                 if obs == "Panic" { x.out.check_c(false, "panic_on_mutated_message", &case, kind); continue; }
+                if kind == "forwarded_id" {
+                    if ok { let m = unhex(&obs[3..]); x.out.check_c(m.len() >= ans.len() && m[..ans.len()] == ans[..], "forwarded_id_not_restored", &case, &format!("after verification {} want prefix {}", obs, hex(&ans))); }
+                    else { x.out.check_c(false, "forwarded_answer_rejected", &case, &obs); }
+                    continue;
+                }
                 let in_class_ttl = w.len() == awire.len() && diffs.len() == 1 && diffs[0] >= tsig_at + owner + 2 && diffs[0] < tsig_at + owner + 8;
                 if in_class_ttl { x.out.check_c(!ok, "tsig_class_ttl_unchecked", &case, &format!("{}: TSIG RR with CLASS/TTL octet changed verifies", kind)); continue; }
                 x.out.check_c(!ok, "tampered_answer_accepted", &case, kind);
@@ -1378,10 +1393,14 @@ fn main() {
             let mut obs = vec![];
             let mut prior = reqmac.clone();
             for (i, (ans, w)) in wires.iter().enumerate() {
-                ccase.push(' '); ccase.push_str(&hex(w));
-                let mut m = Message::from_octets(w.clone()).unwrap();
+                // every second message went through a forwarder that picked a new ID
+                let mut wf = w.clone();
+                if i % 2 == 1 { let nid = id ^ 0x5aa5; wf[0..2].copy_from_slice(&nid.to_be_bytes()); }
+                ccase.push(' '); ccase.push_str(&hex(&wf));
+                let mut m = Message::from_octets(wf).unwrap();
                 let res = cs.answer(&mut m, Time48::from_u64(t));
                 obs.push(match &res { Ok(()) => "ok".to_string(), Err(e) => format!("Err {}", verr(e)) });
+                if res.is_ok() { out.check_c(m.as_slice().len() >= ans.len() && m.as_slice()[..ans.len()] == ans[..], if i % 2 == 1 { "forwarded_id_not_restored" } else { "sequence_not_restored" }, &ccase, &format!("message {}: after verification {} want prefix {}", i + 1, hex(m.as_slice()), hex(ans))); }
                 let cls = if ks.sign_len() < ks.alg.native() && i > 0 { "sequence_truncated_prior_mac" } else { "honest_sequence_rejected" };
                 out.check_c(res.is_ok(), cls, &ccase, &format!("message {} of a ServerSequence (signing_len {} of {}): {:?}", i + 1, ks.sign_len(), ks.alg.native(), res));
                 // reference: prior MAC as transmitted, then message, then variables / timers
